@@ -52,3 +52,24 @@ Fixpoint run_cmp (nr nw : nat) (st : tstate) (steps : list (top * tobs)) : bool 
   end.
 
 Definition c2ok (c : c2case) : bool := let '(nr, nw, steps) := c in run_cmp nr nw t_init steps.
+
+(* ---- the specification (Node/Spec.v) against the same observations: for call sequences that keep the node
+   discipline, the answers the implementation hands out at each call are the specification's ---- *)
+From Uf Require Import Node.Spec.
+
+Fixpoint spec_cmp (st : sstate) (steps : list (top * tobs)) : bool :=
+  match steps with
+  | [] => true
+  | (op, o) :: rest =>
+      let st' := s_step st op in
+      let new := skipn (length (s_out st)) (s_out st') in
+      negb (o_panic o)
+      && list_eqb (fun (a : nat * nat * pkt) (b : nat * pkt) => Nat.eqb (fst (fst a)) (fst b) && pkt_eqb (snd a) (snd b)) new (o_answers o)
+      && spec_cmp st' rest
+  end.
+
+(* 0 = not disciplined (nothing claimed), 1 = disciplined and equal, 2 = disciplined and different *)
+Definition c2spec (c : c2case) : nat :=
+  let '(_, _, steps) := c in
+  if disciplined (map fst steps) then (if spec_cmp s_init steps then 1 else 2) else 0.
+Definition c2ok_spec (c : c2case) : bool := c2ok c && negb (Nat.eqb (c2spec c) 2).
